@@ -232,10 +232,10 @@ def C13(tier):
     c = Check("C13", tier)
     n = sz(tier, 20 * 30_000, 20 * 600_000)
     count = per_shard(n)
-    c.spec("cap-asan", "asan", "drv_array", "c13", count, shards=sz(tier, list(range(8)), list(range(8))), params=[1000, 300])
-    c.spec("cap-asanR", "asanR", "drv_array", "c13", count, shards=[8, 9, 10, 11], params=[1000, 300])
-    c.spec("cap-rel", "rel", "drv_array", "c13", count, params=[1000, 300])
-    other_builds(c, "cap", "drv_array", "c13", count, params=[1000, 300])
+    c.spec("cap-asan", "asan", "drv_array", "c13", count, shards=sz(tier, list(range(8)), list(range(8))), params=[1000, 300, 0, sz(tier, 2, 6)])
+    c.spec("cap-asanR", "asanR", "drv_array", "c13", count, shards=[8, 9, 10, 11], params=[1000, 300, 0, sz(tier, 2, 6)])
+    c.spec("cap-rel", "rel", "drv_array", "c13", count, params=[1000, 300, 0, sz(tier, 2, 6)])
+    other_builds(c, "cap", "drv_array", "c13", count, params=[1000, 300, 0, sz(tier, 2, 6)])
     capcodecs = ["for", "for.batch", "group", "dict.into", "rle", "rle.header", "elias.gamma", "elias.delta", "bp128.32", "bp128.64",
                  "bp128.delta32", "bp128.delta64", "adaptive.DELTA", "adaptive.FOR", "adaptive.PFOR", "adaptive.DICT",
                  "adaptive.BITMAP", "adaptive.TAGGED"]
@@ -243,6 +243,7 @@ def C13(tier):
         c.require("codec." + name, c.stat("codec." + name), 500)
     c.require("decodes_with_stale_meta", c.stat("c13_decodes_with_stale_meta"), 10000)
     c.require("long_arrays", c.stat("c13_long_arrays"), 200)
+    c.require("huge_arrays", c.stat("c13_huge_arrays"), 20, "(1.05M-3M elements)")
     c.require("capacity0", c.stat("c13_capacity0"), 10000)
     c.require("refused", c.stat("c13_refused"), 10000)
     c.require("prefix", c.stat("c13_prefix"), 10000)
@@ -257,8 +258,8 @@ def C16(tier):
     c = Check("C16", tier)
     n = sz(tier, 27 * 30_000, 27 * 800_000)
     count = per_shard(n)
-    p = [4097, 1000, sz(tier, 0, 1)]
-    c.spec("meta-rel", "rel", "drv_array", "c16", count, params=p[:2] + [1])  # incl. the runs of >= 2^24 identical values
+    p = [4097, 1000, sz(tier, 0, 1), sz(tier, 2, 6)]  # p3: the first cases of every shard are arrays of 1.05M-3M elements
+    c.spec("meta-rel", "rel", "drv_array", "c16", count, params=p[:2] + [1, p[3]])  # incl. the runs of >= 2^24 identical values
     c.spec("meta-asan", "asan", "drv_array", "c16", count, shards=[0, 1, 2, 3], params=p)
     c.spec("meta-msan", "msan", "drv_array", "c16", count, shards=[4, 5], params=p)
     other_builds(c, "meta", "drv_array", "c16", count, shards=(6, 7), params=p)
@@ -273,6 +274,7 @@ def C16(tier):
     for k in ("c16_pfor_no_exceptions", "c16_pfor_one_exception", "c16_pfor_many_exceptions"):
         c.require(k, c.stat(k), 100)
     c.require("float_consumed_checks", c.stat("c16_float_consumed_checked"), 10000)
+    c.require("huge_arrays", c.stat("c16_huge_arrays"), 20, "(1.05M-3M elements)")
     c.require("giant_run_cases", c.stat("giant_run_cases"), 4, "(runs of 2^24 and more identical values)")
     if tier == "thorough":
         if c.stat("c16_colossal_arrays") < 1:
